@@ -241,7 +241,7 @@ def quote_model(s, safe="/"):
     out = ""
     for c in s:
         o = ord(c)
-        if (65 <= o <= 90) or (97 <= o <= 122) or (48 <= o <= 57) or o in (95, 46, 45, 126, 47):
+        if (65 <= o <= 90) or (97 <= o <= 122) or (48 <= o <= 57) or o in (95, 46, 45, 126) or (o < 128 and c in safe):
             out += c
             continue
         if o < 0x80:
